@@ -201,8 +201,11 @@ def main(argv=None):
             "coverage": cov, "assumptions": list(getattr(module, "ASSUMPTIONS", [])),
             "wall_s": round(wall, 3), "violations": n_new,
         }
-        os.makedirs(os.path.join(VERIF, "evidence"), exist_ok=True)
-        path = os.path.join(VERIF, "evidence", pid + ".json")
+        evdir = os.path.join(VERIF, "evidence")
+        if os.environ.get("VERIF_KEEP_EVIDENCE"):  # try-out runs against seeded changes must not overwrite committed evidence
+            evdir = os.path.join(scratch.root(), "evidence")
+        os.makedirs(evdir, exist_ok=True)
+        path = os.path.join(evdir, pid + ".json")
         tmp = path + ".tmp"
         with open(tmp, "w") as f:
             json.dump(ev, f, indent=1, sort_keys=True)
